@@ -22,7 +22,8 @@ def run(tier, seed):
                           # (depth 4 of c08b/c08c is 1.5 million behaviours: more than the replay can hold)
                           extra_B=[{"Scenario": '"c08b"', "MaxDepth": 3},
                                    {"Scenario": '"c08c"', "MaxDepth": 3},
-                                   {"Scenario": '"c08d"', "MaxDepth": 3 if quick else 5}])
+                                   {"Scenario": '"c08d"', "MaxDepth": 3 if quick else 5},
+                                   {"Scenario": '"c08e"', "MaxDepth": 3 if quick else 4}])
 
 
 def replay(path):
